@@ -1,1 +1,4 @@
 pub mod roundtrip;
+pub mod tamper;
+pub mod binding;
+pub mod nopanic;
